@@ -99,6 +99,7 @@ def units():
 
 
 META = dict(
+    technique='CBMC 6.11 function + loop contracts (dfcc) on the six writeImage instantiations against recording stdio interface models; image dimensions bounded by a harness assumption',
     level="other",
     level_text="writeImage in its six instantiations (PPM, PGM, PFM<float|vec3f|vec3fa|vec4f>) is extracted from /repo and proved by CBMC with loop contracts on its three nested loops against stdio interface models: every read of `pixel` lies inside the sizeX*sizeY elements it was given (pointer checks), every fwrite is handed a readable row of exactly N_COMP*sizeX components, exactly sizeY rows are written, the header receives (sizeX, sizeY), and -- for an arbitrary ghost row and component -- the value written is the selected channel of pixel (x, FLIP ? sizeY-1-y : y). The loops are closed by invariants (any iteration count) but the image dimensions are bounded in the harness.",
     level_note="BOUNDED in the image dimensions (sizeX, sizeY <= 32 quick / 64 thorough): the row*sizeX index products against the sizeX*sizeY allocation make the SAT problem grow with the range of the dimensions; not counted as an unbounded proof. saveLog / event tracing (the second half of the statement) is NOT verified: stream formatting over std::list/vector/unordered_map and chrono is outside the extractor's subset. stdio is an assumed interface model.",
